@@ -17,8 +17,8 @@ QNames_tiny == {<<>>, <<la>>, <<lc>>, <<la, la>>, <<lc, la>>}
 Nodes_big == Nodes_small \cup {<<lb>>, <<la, lb>>, <<ls, lb>>, <<lb, la>>}
 QNames_big == QNames_small \cup {<<lb>>, <<la, lb>>, <<lc, lb>>, <<lb, la>>}
 
-AllTypes == {"SOA", "NS", "A", "CNAME", "DS", "TXT"}
-QTypesAll == {"NS", "A", "CNAME", "DS", "TXT", "ANY", "SOA"}
+AllTypes == {"SOA", "NS", "A", "AAAA", "CNAME", "DS", "TXT"}
+QTypesAll == {"NS", "A", "AAAA", "CNAME", "DS", "TXT", "ANY", "SOA"}
 TwoTypes == {"SOA", "A", "TXT"}
 QTypesTwo == {"A", "TXT", "ANY"}
 
@@ -27,6 +27,7 @@ QTypesFour == {"NS", "A", "CNAME", "DS", "ANY"}
 \* two values only where a second one adds behaviour (RRset merging, in-zone
 \* vs out-of-zone name server)
 MCValsOf(t) == IF t \in {"A", "NS"} THEN {1, 2} ELSE {1}
+MCValsOf3(t) == IF t = "NS" THEN {1, 2, 3} ELSE IF t = "A" THEN {1, 2} ELSE {1}
 MCValsOne(t) == IF t = "A" THEN {1, 2} ELSE {1}
 Nodes_c09 == {<<la>>, <<ls>>, <<la, la>>}
 QNames_c09 == {<<>>, <<la>>, <<lc>>, <<la, la>>}
@@ -37,6 +38,11 @@ Nodes_q9 == {<<la>>, <<la, la>>}
 QNames_q9 == {<<la>>, <<la, la>>, <<lc>>}
 TypesQ9 == {"SOA", "A"}
 QTypesQ9 == {"A", "ANY"}
+QNames_glue == {<<>>, <<la>>, <<la, la>>, <<lc, la>>, <<lb>>, <<lc, lb>>}
+QTypesGlue == {"A", "AAAA", "NS", "DS", "ANY"}
+Nodes_live == {<<la>>}
+QNames_live == {<<la>>}
+OneVal(t) == {1}
 AllDevs == DevNames
 \* the recorder's universe: labels a, b, * ("*" only leftmost) to depth 3
 AB == {la, lb}
